@@ -599,7 +599,9 @@ class Outcome:
                 (e.level < level or (e.level == level and not cond.fn.dominates(cond.target, e.level_bb)))]
 
 
-def outcomes(E, fn, mapping=None, chain=(), stack=()):
+def outcomes(E, fn, mapping=None, chain=(), stack=(), through=None):
+    """`through(g)`: also descend into workspace function g when its *unwrapped* result is what a success site returns
+    (`match helper(..)? { Some(x) => Ok(x), .. }`), not only into tail calls"""
     from .guards import conditions
     mapping = mapping or {}
     res = []
@@ -633,14 +635,44 @@ def outcomes(E, fn, mapping=None, chain=(), stack=()):
                         res.append(Outcome(('recursion', g.path), must, may, conds, (site,)))
                         continue
                     m = E.call_mapping(fn, site.call, g, mapping)
-                    for sub in outcomes(E, g, m, chain + (Link(site.call, mapping),), stack + (fn.path,)):
+                    for sub in outcomes(E, g, m, chain + (Link(site.call, mapping),), stack + (fn.path,), through):
                         res.append(Outcome(sub.value, must + sub.must, may + sub.may, conds + sub.conds, (site,) + sub.sites))
                 continue
             v = E.subst(E.slicer._call_value(fn, site.call, set(), 0), mapping)
             res.append(Outcome(v, must, may, conds, (site,)))
         elif site.kind == 'ok':
-            v = E.subst(E.slicer._rvalue(fn, site.stmt, set(), 0, None), mapping)
-            res.append(Outcome(v, must, may, conds, (site,)))
+            raw = E.slicer._rvalue(fn, site.stmt, set(), 0, None)
+            v = E.subst(raw, mapping)
+            sub_done = False
+            if through is not None and raw[0] == 'agg' and raw[2] in ('Ok', 'Some') and len(raw[3]) == 1:
+                # Ok(<payload of payload .. of a call to a private helper>): continue inside that helper
+                inner, depth = raw[3][0][1], 0
+                while inner[0] == 'unwrap':
+                    inner, depth = inner[1], depth + 1
+                g = E.prog.fns.get(inner[1]) if inner[0] == 'call' and len(inner) == 4 and inner[3] else None
+                c = fn.call_at(inner[3][1]) if g is not None and inner[3][0] == fn.path else None
+                if g is not None and c is not None and depth >= 1 and through(g) and g.path not in stack and g.path != fn.path \
+                        and fn.dominates(c.bb, site.bb) and len(stack) <= E.max_depth:
+                    m = E.call_mapping(fn, c, g, mapping)
+                    own_must = [e for e in must if not (e.level == level and e.level_bb == c.bb)]
+                    own_may = [e for e in may if not (e.level == level and e.level_bb == c.bb)]
+                    for sub in outcomes(E, g, m, chain + (Link(c, mapping),), stack + (fn.path,), through):
+                        sv = sub.value
+                        ok = True
+                        for _ in range(depth):
+                            if sv[0] == 'agg' and sv[2] in ('Ok', 'Some') and len(sv[3]) == 1:
+                                sv = sv[3][0][1]
+                            elif sv[0] == 'agg' and sv[2] in ('None', 'Err'):
+                                ok = False      # this outcome of the helper does not lead to this site
+                                break
+                            else:
+                                sv = ('unwrap', sv)
+                        if ok:
+                            res.append(Outcome(('agg', raw[1], raw[2], ((raw[3][0][0], sv),)), own_must + sub.must, own_may + sub.may,
+                                               conds + sub.conds, (site,) + sub.sites))
+                            sub_done = True
+            if not sub_done:
+                res.append(Outcome(v, must, may, conds, (site,)))
         else:
             res.append(Outcome(('tuple', ()), must, may, conds, (site,)))
     return res
